@@ -51,18 +51,22 @@ class Boom(RuntimeError):
     pass
 
 
-def failing_iterable(objs, how, raise_at=None):
-    """list/generator over objs; raises Boom before yielding item raise_at"""
+class Interrupt(BaseException):
+    """stands for KeyboardInterrupt and friends: not a subclass of Exception"""
+
+
+def failing_iterable(objs, how, raise_at=None, exc=Boom):
+    """list/generator over objs; raises exc before yielding item raise_at"""
     if raise_at is None and how == 'list':
         return list(objs)
 
     def g():
         for j, o in enumerate(objs):
             if raise_at is not None and j == raise_at:
-                raise Boom('iterable failed (injected)')
+                raise exc('iterable failed (injected)')
             yield o
         if raise_at is not None and raise_at >= len(objs):
-            raise Boom('iterable failed (injected)')
+            raise exc('iterable failed (injected)')
     return g()
 
 
@@ -139,7 +143,7 @@ class ArrayHistory(Engine):
         if k == 'iterappend_fail':
             n = rng.choice([1, 2, 3])
             return {'op': 'iterappend_fail', 'chunks': [self.gen_data(rng) for _ in range(n)], 'pos': rng.randint(0, n),
-                    'how': rng.choice(['raise', 'badshape', 'unconvertible'])}
+                    'how': rng.choice(['raise', 'raise_base', 'badshape', 'unconvertible'])}
         if k == 'append_bad':
             return {'op': 'append', 'data': dict(self.gen_data(rng, rows=rng.choice([1, 2])), form='ndarray'),
                     'bad': rng.choice(['shape', 'rank+', 'rank-', 'unconvertible', 'shape_empty', 'rank+_empty'])}
@@ -571,7 +575,7 @@ class _State:
             exps.append(e)
         pos = min(op['pos'], len(objs))
         raise_at = None
-        if op['how'] == 'raise':
+        if op['how'] in ('raise', 'raise_base'):
             raise_at = pos
         elif op['how'] == 'badshape':
             tr = list(m.shape[1:])
@@ -580,7 +584,8 @@ class _State:
         else:
             objs = objs[:pos] + [['x', 'y'] if m.ndim == 1 else object()] + objs[pos:]
         prebytes = self.filebytes() if self.has('prefix') else None
-        exc = self.call(lambda: self.h.iterappend(failing_iterable(objs, 'generator', raise_at)))
+        exc = self.call(lambda: self.h.iterappend(failing_iterable(objs, 'generator', raise_at,
+                                                                  Interrupt if op['how'] == 'raise_base' else Boom)))
         if exc is None:
             raise Viol('model.iterappend_fail', 'no_exception', f'how={op["how"]} pos={pos}')
         self.model = np.concatenate([m] + exps[:pos]).astype(m.dtype, copy=False) if pos else m
@@ -899,6 +904,8 @@ class _State:
             f()
             return None
         except Exception as e:  # noqa
+            return e
+        except Interrupt as e:
             return e
 
     def state_snapshot(self):
